@@ -71,7 +71,9 @@ func (loop *Loop) Run(path string) {
 	// lifecycle
 	go func() {
 		producerPool.Wait()
+		verifPoint("closer.waited")
 		loop.lifecycle.NextStep(StepClose)
+		verifPoint("closer.announced")
 		close(loop.loopData.chans.dirChan)
 		close(loop.loopData.chans.fileChan)
 	}()
